@@ -148,6 +148,11 @@ def shards(ctx):
                 out.append({"cfg": "asm", "sig": sig, "state": [st[0], list(st[1])], "history": h, "witness": wi})
     for cfg in ("c64", "c32"):
         out.append({"cfg": cfg, "sig": True, "state": None, "history": []})
+    # the 32-bit / ARM-like-ABI build also explores from every 5th key state (qualification, adjustment, resampling code is shared
+    # source, but what the compiler makes of it depends on the ABI: char signedness, enum width, word size)
+    for k, (st, hists) in enumerate(sorted(reach.items(), key=lambda kv: str(kv[0]))):
+        if k % 5 == 2:
+            out.append({"cfg": "c32", "sig": False, "state": [st[0], list(st[1])], "history": hists[0]})
     ctx.extra["abstract_states"] = len(reach) + 1
     # the slot count is an operand too: boundary values of l (a bit mask or a narrow counter over slots would break here)
     for l in ((9, 33, 65) if ctx.tier == "quick" else (9, 16, 17, 31, 32, 33, 63, 64, 65, 100, 255, 256, 257)):
